@@ -83,7 +83,8 @@ LoopTicks(song) ==
                      \A ti \in DOMAIN song.tracks : TickOf(Flat(song.tracks[ti]), Len(Flat(song.tracks[ti]))) <= m
       sT == IF ss # <<>> THEN ss[1].tick ELSE 0
       eT == IF es # <<>> THEN es[1].tick ELSE IF ss # <<>> THEN songTicks ELSE 0
-  IN [invalid |-> Len(ss) > 1 \/ Len(es) > 1 \/ sameRow \/ sT >= eT, st |-> sT, et |-> eT]
+  IN [invalid |-> Len(ss) > 1 \/ Len(es) > 1 \/ sameRow \/ sT >= eT, st |-> sT, et |-> eT,
+      endIsSong |-> es = <<>> /\ ss # <<>>]          \* a loop start without a loop end: the loop ends where the song does
 
 ---------------------------------------------------------------------------
 (* playback state and processEvents() *)
@@ -99,6 +100,12 @@ RowTimeUs(song, trows, ri) ==
 LoopTimeUs(song, rows, tick, inv) ==
   LET c == FlattenSeq([ti \in DOMAIN rows |-> SelectSeq([ri \in DOMAIN rows[ti] |-> [a |-> rows[ti][ri].abs, t |-> RowTimeUs(song, rows[ti], ri)]], LAMBDA x : x.a = tick)])
   IN IF inv \/ c = <<>> THEN -1 ELSE c[Len(c)].t
+
+\* m_loopEndTime: the time of the row at the loop end tick - except for a loop without end point, whose end is the time of the
+\* song's last event (the last row of the longest track may carry an earlier time: trailing silence is skipped; before that
+\* repair a seek into the gap counted as "behind the loop end").  song.len = last event time + 1 s
+LoopEndTimeUs(song, rows, lt) ==
+  IF lt.invalid THEN -1 ELSE IF lt.endIsSong THEN song.len - 1000000 ELSE LoopTimeUs(song, rows, lt.et, FALSE)
 
 (* the load-time scan of buildTimeLine() for the loop begin position: like processEvents, but a track found at its end
    does not stop the pass, nothing is delivered, and the position keeps wait = 0 *)
@@ -221,7 +228,7 @@ DrainSeek(S, song, rows, gh, fuel) ==
 SeekModel(song, loopEn, loopN, target, gh) ==
   LET rows == Rows(song)
       base == Play0(song, rows, loopEn, loopN)
-      le == LET lt == LoopTicks(song) IN LoopTimeUs(song, rows, lt.et, lt.invalid)
+      le == LoopEndTimeUs(song, rows, LoopTicks(song))
       S0 == [base EXCEPT !.loopEn = FALSE, !.seek = TRUE, !.broken = Behind(target, le), !.p.wait = -target, !.p.abs = target]
       d  == DrainSeek(S0, song, rows, gh, 400)
   IN IF target < 0 THEN [s |-> base, log |-> <<>>, tell |-> -1, rows |-> rows]            \* refused: nothing moves (tell -1 = unchanged)
